@@ -158,6 +158,10 @@ pub enum StrayKind {
     RootFile,
     /// a foreign top-level directory `locks/` with an id-named file (other repository tools use it)
     LocksDir,
+    /// NOT generated (replay-only probe, see the module's blind spots): a regular file with a
+    /// 64-hex lower-case name in a place where no file of that id lives — in a sub-directory of
+    /// the type's directory, or (packs, `place == 0`) directly under `data/`
+    IdNamedFileElsewhere,
 }
 
 #[derive(Debug, Clone, Serialize, Deserialize, PartialEq, Eq)]
@@ -310,10 +314,14 @@ fn op(max: u32, strays: bool) -> BoxedStrategy<Op> {
 
 fn map_strategy(ctx: &Ctx, subject: Subject) -> BoxedStrategy<MapCase> {
     let max = max_len(ctx);
-    let len = prop_oneof![1 => 1usize..=10, 3 => 10usize..=40];
-    len.prop_flat_map(move |n| prop::collection::vec(op(max, subject.on_directory()), n..=n))
-        .prop_map(move |ops| MapCase { subject, ops })
-        .boxed()
+    // plain `vec` strategies so that shrinking removes ops
+    let o = || op(max, subject.on_directory());
+    prop_oneof![
+        1 => prop::collection::vec(o(), 1..=10),
+        3 => prop::collection::vec(o(), 10..=40),
+    ]
+    .prop_map(move |ops| MapCase { subject, ops })
+    .boxed()
 }
 
 fn strat_local(ctx: &Ctx) -> BoxedStrategy<MapCase> {
@@ -663,6 +671,18 @@ fn plant(
         StrayKind::LocksDir => {
             write(root.join("locks").join(hex_name(seed, 64))).then_some("stray_locks_dir")
         }
+        StrayKind::IdNamedFileElsewhere => {
+            let id = expand_id(Some(FIRSTS[pick_idx(pick, FIRSTS.len())]), seed);
+            if model.contains_key(&(tp, id)) {
+                return None;
+            }
+            let dir = if tp == Tp::Pack && place == 0 {
+                root.join("data")
+            } else {
+                type_dir(root, tp, place, None).join("sub")
+            };
+            write(dir.join(id.to_hex().as_str())).then_some("stray_id_named_file_elsewhere")
+        }
     }
 }
 
@@ -711,6 +731,8 @@ fn range_of(mode: RangeMode, a: u32, b: u32, n: usize) -> (usize, usize) {
 }
 
 pub const KEY_FS_PADDED: &str = "opendal-fs-lists-whitespace-padded-name";
+/// replay-only probe, never generated
+pub const KEY_ID_FILE_ELSEWHERE: &str = "id-named-file-in-foreign-subdirectory";
 
 fn run_map(c: &MapCase, _ctx: &Ctx) -> Outcome {
     let subject = c.subject;
@@ -734,6 +756,9 @@ fn run_map(c: &MapCase, _ctx: &Ctx) -> Outcome {
         && c.ops.iter().any(|o| matches!(o, Op::Stray { kind: StrayKind::HexPadded, .. }))
     {
         out = out.known(KEY_FS_PADDED);
+    }
+    if c.ops.iter().any(|o| matches!(o, Op::Stray { kind: StrayKind::IdNamedFileElsewhere, .. })) {
+        out = out.known(KEY_ID_FILE_ELSEWHERE);
     }
 
     let mut model: Model = BTreeMap::new();
